@@ -1,10 +1,77 @@
 import TwigModel.Proto
+import TwigModel.EngineCache
 open Lean
 namespace Twig.Ops
+open Twig.EngineCache
 
-/-- driver ops of the EngineCache area (see the module TwigModel.EngineCache); `none` = not one of ours -/
+/-- one operation: a JSON array `[tag, int …]`
+    ["cache",b] ["auto",b] ["dev",b] ["addloader",ts] ["regstr",n,s] ["regtpl",n,s]
+    ["put",i,n,s,t] ["del",i,n] ["touch",i,n,t] ["load",n] ["render",n]      (b, ts: 0/1; t may be negative) -/
+def ecParseOp (j : Json) : Except String Op := do
+  let a ← j.getArr?
+  let tag ← (a[0]?.getD Json.null).getStr?
+  let int (k : Nat) : Except String Int := (a[k]?.getD Json.null).getInt?
+  let nat (k : Nat) : Except String Nat := (a[k]?.getD Json.null).getNat?
+  let bool (k : Nat) : Except String Bool := do let v ← nat k; pure (v != 0)
+  match tag with
+  | "cache" => pure (.setCache (← bool 1))
+  | "auto" => pure (.setAutoReload (← bool 1))
+  | "dev" => pure (.setDevMode (← bool 1))
+  | "addloader" => pure (.registerLoader (← bool 1))
+  | "regstr" => pure (.registerString (← nat 1) (← nat 2))
+  | "regtpl" => pure (.registerTemplate (← nat 1) (← nat 2))
+  | "put" => pure (.loaderPut (← nat 1) (← nat 2) (← nat 3) (← int 4))
+  | "del" => pure (.loaderDelete (← nat 1) (← nat 2))
+  | "touch" => pure (.loaderTouch (← nat 1) (← nat 2) (← int 3))
+  | "load" => pure (.load (← nat 1))
+  | "render" => pure (.render (← nat 1))
+  | t => throw s!"enginecache: unknown op tag {t}"
+
+/-- -2 = no output, -1 = ErrTemplateNotFound, s ≥ 0 = served version s -/
+def ecOutJson : Out → Json
+  | .quiet => Json.num (-2 : Int)
+  | .notFound => Json.num (-1 : Int)
+  | .served s => Json.num (s : Nat)
+
+def ecCalledName : Op → Option Nat
+  | .load n => some n
+  | .render n => some n
+  | _ => none
+
+/-- everything compared after a step, as one flat array of integers:
+    `[out, spec, flags, cachedMask, loads…, stats…]` — `flags` = cache + 2·autoReload + 4·debug; `cachedMask` has
+    bit n set iff name n is a key of `Engine.templates`; `loads`/`stats` = the `Load` / `GetModifiedTime` call
+    counters per loader and name (loader-major, names `0 … names-1`) -/
+def ecStepJson (names : Nat) (o : Out) (σ : State) (spec : Json) : Json :=
+  let ns := List.range names
+  let ls := List.range σ.loaders.length
+  let nums (f : Nat → Nat → Nat) : List Json := ls.flatMap fun i => ns.map fun n => Json.num (f i n)
+  let flags : Nat := (if σ.cache then 1 else 0) + (if σ.autoReload then 2 else 0) + (if σ.debug then 4 else 0)
+  let mask : Nat := ns.foldl (fun acc n => if (σ.templates n).isSome then acc + 2 ^ n else acc) 0
+  Json.arr ([ecOutJson o, spec, Json.num flags, Json.num mask] ++ nums σ.loads ++ nums σ.stats).toArray
+
+/-- run the model step by step; beside each step put what the *specification* (`Spec.expected`, computed from
+    the history alone) says the call must return (-2 for steps that are not calls) -/
+def ecRun (names : Nat) (ops : List Op) : List Json :=
+  let rec go (σ : State) (done : List Op) : List Op → List Json
+    | [] => []
+    | op :: rest =>
+      let r := step σ op
+      let spec := match ecCalledName op with
+        | some n => ecOutJson (Spec.expectedR done n)
+        | none => Json.num (-2 : Int)
+      ecStepJson names r.2 r.1 spec :: go r.1 (op :: done) rest
+  go init [] ops
+
+/-- driver ops of the EngineCache area (see the module TwigModel.EngineCache); `none` = not one of ours
+    * `enginecache_run {names: k, ops: [[tag, …], …]}` → `{steps: [[out, spec, flags, cachedMask, loads…, stats…], …]}` -/
 def engineCacheOps (op : String) (j : Json) : Option (Except String Json) :=
   match op with
+  | "enginecache_run" => some do
+      let names ← Proto.getNat j "names"
+      let arr ← Proto.getArr j "ops"
+      let ops ← arr.toList.mapM ecParseOp
+      pure (Proto.ok [("steps", Json.arr (ecRun names ops).toArray)])
   | _ => none
 
 end Twig.Ops
